@@ -2022,6 +2022,29 @@ Plan gen_plan(const std::string &property, const std::string &profile, uint64_t 
         }
         p.ops.push_back(op);
     }
+    // A run that holds a large field (long axis, padded curve storage of 10^5 cells) keeps its
+    // cost bounded: few operations and no byte-sized stream chunks, so that no run needs
+    // seconds of CPU even under ASan or valgrind (the CPU watchdog must never fire on a
+    // correct library).
+    {
+        size_t biggest = 0;
+        for (auto &op : p.ops)
+            if (op.kind == OP_CONSTRUCT && op.stack >= 0 && g_stacks[op.stack].shape != SHAPE_NONE && (int)op.ext.size() == g_stacks[op.stack].N) {
+                size_t padded = 1, mx = 1;
+                for (auto e : op.ext)
+                    mx = std::max(mx, e);
+                for (int k = 0; k < g_stacks[op.stack].N; ++k)
+                    padded *= (size_t)pow2_ceil(mx);
+                biggest = std::max(biggest, padded);
+            }
+        if (biggest > 20000) {
+            if (p.ops.size() > 14)
+                p.ops.resize(14);
+            p.getbuf = std::max(p.getbuf, 4096);
+            if (p.putbuf != 0)
+                p.putbuf = std::max(p.putbuf, 4096);
+        }
+    }
     if (profile == "conversion") {
         // convert every live field back to its family's row-major member
         for (int i = 0; i < p.nslots; ++i) {
@@ -2091,7 +2114,7 @@ RunResult run_plan_once(const Plan &p, Disabled &dis, Counters &cnt, Progress *p
     cuda::begin_run();
 #endif
     RunResult rr;
-    watchdog_arm(RUNNING_ON_VALGRIND ? 120 : 10);
+    watchdog_arm(RUNNING_ON_VALGRIND ? 900 : 60);
     {
         World w(p, dis, cnt, prog);
         for (size_t i = 0; i < p.ops.size() && !w.failed; ++i)
